@@ -1,6 +1,6 @@
 SPECIFICATION Spec
-CONSTANT Lats <- MCLatsQ
-CONSTANT Lons <- MCLonsQ
+CONSTANT Lats <- MCLats
+CONSTANT Lons <- MCLons
 CONSTANT Vecs <- MCVecs
 CONSTANT Vcvs <- MCVcvs
 CONSTANT Cols <- MCCols
